@@ -78,6 +78,30 @@ theorem guard_sites_all_guarded :
     scratchSites.all (fun x => x.2) = true ∧ guardClassProblems = [] ∧
     statefulCacheSites.all (fun x => x.2) = true := by decide +kernel
 
+/-- **pooled_objects_reinitialised.** Objects that are pooled and handed out again (the execution context's
+`FormatterToSourceTree`, `FormatterToText`, `MutableNodeRefList` and `XalanDOMString` pools / caches): the borrowing site
+calls every re-initialiser, and *every* data member found in the class and its bases is assigned by one of them or is on
+the justified allow-list with the only functions that may write it (closed check over `Generated.reinitSites`); and, for
+the re-initialisation as a statement list over the object's own members (`Generated.pooledReinit`), every member that
+holds per-use data has a value that does not depend on what the previous user left behind — for *all* previous
+states (`history_erased`, induction over statement lists). -/
+theorem pooled_objects_reinitialised :
+    reinitSites.all (fun x => x.2) = true ∧
+    ∀ c ∈ pooledReinit, ∀ m ∈ c.2.2, ∀ s1 s2 : State, run c.2.1 s1 m = run c.2.1 s2 m := by
+  refine ⟨by decide +kernel, ?_⟩
+  have hall : pooledReinit.all (fun c => c.2.2.all fun m => (lk m (aRun c.2.1 [])).isSome) = true := by decide +kernel
+  intro c hc m hm s1 s2
+  have h1 := List.all_eq_true.mp hall c hc
+  exact history_erased c.2.1 m (List.all_eq_true.mp h1 m hm) s1 s2
+
+example : pooledReinit.length = 4 ∧ (pooledReinit.map fun c => c.2.2.length) = [8, 0, 2, 2] := by decide +kernel
+
+/-- **cache_keys_complete.** Caches that outlive a transformation are keyed on every input of the cached value: each
+data member of `XalanDecimalFormatSymbols` (the key of the ICU decimal-format cache) takes part in `operator=`,
+`operator==` and the copy constructor; the cache is filled with a copy of, and searched by comparison with, the whole
+key; the collator cache is searched by the locale name, the only input of `createCollator`. -/
+theorem cache_keys_complete : cacheKeySites.all (fun x => x.2) = true := by decide +kernel
+
 /-- **scope_guard_restores.** Semantics of a C++ block holding `CollectionClearGuard`s, with exceptions
 (`XalanModel/C06/Scope.lean`): if every mutation of member `m` lies inside a scope that guards `m`, then after the
 code ran — to completion or to an exception at *any* point — `m` is empty again. -/
